@@ -15,6 +15,7 @@ RULE = ("family cases enumerate one zero/sign pattern of the axis (26 patterns; 
 EXPLANATION = ("all 26 zero/sign patterns of the axis are enumerated (the measure-zero "
                "families), the rest is sampled; tolerance 1e-6*(1+|v|): measured accuracy of "
                "the real code is 2e-15 for component ratios <= 10 and 7e-9 at ratio 1e9")
+RULE = RULE + ' Round 12: calls on the same two objects with components changed in place between them.'
 ASSUMPTIONS = ["axis components with |c| outside [1e-12,1e12] or ratio > 1e9 are not judged "
                "(x*x under/overflow)"]
 MAGS = (1e-7, 1e-4, 2.0 ** -10, 0.5, 1.0, 2.0, 1e3)
